@@ -2,8 +2,9 @@
 (***************************************************************************)
 (* Engine B for C19: fragments produced by REAL searches with highlighting *)
 (* are judged against the Highlight monitor.  One record per fragment:     *)
-(* {fmt, value: [bytes], frag: [bytes], locs: [[start,end],...]} where     *)
-(* locs are the hit's term locations of the field.                         *)
+(* {fmt, frag: [bytes], values: [[bytes],...], alocs: [[[start,end],...],...]}*)
+(* values / alocs: per array element of the field (one for a plain field)  *)
+(* the stored value and the hit's term locations inside it.                *)
 (***************************************************************************)
 EXTENDS Highlight, Json, IOUtils
 Trace == ndJsonDeserialize(IOEnv.VERIF_TRACE)
@@ -13,8 +14,13 @@ JNext == l <= Len(Trace) /\ l' = l + 1 /\ UNCHANGED hvars
 JSpec == JInit /\ [][JNext]_<<l, value, fs, fe, locs, fmt>>
 
 Cur == Trace[l]
+\* a field may hold an array of values: values[e] is the stored value of element e,
+\* alocs[e] the hit's term locations inside that element (a plain field has one
+\* element).  A fragment is a piece of ONE element, marked at THAT element's locations.
+Elems == DOMAIN Cur.values
 MarkupWellFormed == l <= Len(Trace) => WellMarked(Cur.fmt, Cur.frag)
-FragmentIsSlice  == l <= Len(Trace) => (WellMarked(Cur.fmt, Cur.frag) => IsSlice(Cur.fmt, Cur.value, Cur.frag))
-SpansAtLocations == l <= Len(Trace) => (WellMarked(Cur.fmt, Cur.frag) /\ IsSlice(Cur.fmt, Cur.value, Cur.frag)
-                                          => SpansAreLocations(Cur.fmt, Cur.value, Cur.frag, Cur.locs))
+FragmentIsSlice  == l <= Len(Trace) => (WellMarked(Cur.fmt, Cur.frag) => \E e \in Elems : IsSlice(Cur.fmt, Cur.values[e], Cur.frag))
+SpansAtLocations == l <= Len(Trace) => (WellMarked(Cur.fmt, Cur.frag) /\ (\E e \in Elems : IsSlice(Cur.fmt, Cur.values[e], Cur.frag))
+                                          => \E e \in Elems : /\ IsSlice(Cur.fmt, Cur.values[e], Cur.frag)
+                                                               /\ SpansAreLocations(Cur.fmt, Cur.values[e], Cur.frag, Cur.alocs[e]))
 =============================================================================
